@@ -390,3 +390,104 @@ func (hit *HashInTuple) Eval(ctx *Context, row Row) (any, error) {
 	}
 	return false, nil // BUG: the NULL flag of the list is ignored
 }
+
+// ---- IN (subquery), EXISTS ---------------------------------------------------------------
+
+type ValueType interface {
+	Type
+	Promote() ValueType
+	Convert(ctx *Context, v any) (any, ConvertInRange, error)
+	Compare(ctx *Context, a, b any) (int, error)
+}
+
+type ValueExpression interface {
+	Eval(ctx *Context, row Row) (any, error)
+	Type(ctx *Context) ValueType
+}
+
+type rowCache struct{ m map[uint64]any }
+
+var errNotFound = &errKind{"not found"}
+
+func (c *rowCache) Size() int { return len(c.m) }
+func (c *rowCache) Get(k uint64) (any, error) {
+	v, ok := c.m[k]
+	if !ok {
+		return nil, errNotFound.New()
+	}
+	return v, nil
+}
+
+func HashOf(ctx *Context, v any) (uint64, error) { return 0, nil }
+
+var nilKey, _ = HashOf(nil, nil)
+
+type Subquery struct{ typ ValueType }
+
+func (s *Subquery) Eval(ctx *Context, row Row) (any, error)               { return nil, nil }
+func (s *Subquery) Type(ctx *Context) ValueType                           { return s.typ }
+func (s *Subquery) HashMultiple(ctx *Context, row Row) (*rowCache, error) { return &rowCache{}, nil }
+func (s *Subquery) HasResultRow(ctx *Context, row Row) (bool, error)      { return false, nil }
+
+type InSubquery struct {
+	LeftChild, RightChild ValueExpression
+}
+
+func NewInSubquery(ctx *Context, l, r ValueExpression) *InSubquery { return &InSubquery{l, r} }
+func (in *InSubquery) Type(ctx *Context) Type                      { return boolType{} }
+func NewNotInSubquery(ctx *Context, l, r ValueExpression) Expression {
+	return NewNot(NewInSubquery(ctx, l, r))
+}
+
+func (in *InSubquery) Eval(ctx *Context, row Row) (any, error) {
+	typ := in.LeftChild.Type(ctx).Promote()
+	left, err := in.LeftChild.Eval(ctx, row)
+	if err != nil {
+		return nil, err
+	}
+	leftNull := left == nil
+	left, _, err = typ.Convert(ctx, left)
+	if err != nil {
+		return nil, err
+	}
+	switch right := in.RightChild.(type) {
+	case *Subquery:
+		rTyp := right.Type(ctx)
+		values, err := right.HashMultiple(ctx, row)
+		if err != nil {
+			return nil, err
+		}
+		if leftNull {
+			return nil, nil // BUG: NULL IN (no rows) is FALSE
+		}
+		key, err := HashOf(ctx, left)
+		if err != nil {
+			return nil, err
+		}
+		val, notFoundErr := values.Get(key)
+		if notFoundErr != nil {
+			if _, nilErr := values.Get(nilKey); nilErr == nil {
+				return nil, nil
+			}
+			return false, nil
+		}
+		cmp, err := rTyp.Compare(ctx, left, val)
+		if err != nil {
+			return nil, err
+		}
+		return cmp == 0, nil
+	default:
+		return nil, ErrUnsupportedInOperand.New(right)
+	}
+}
+
+type ExistsSubquery struct{ Query *Subquery }
+
+func (e *ExistsSubquery) Type(ctx *Context) Type { return boolType{} }
+func (e *ExistsSubquery) Eval(ctx *Context, row Row) (any, error) {
+	has, err := e.Query.HasResultRow(ctx, row)
+	if err != nil {
+		return nil, err
+	}
+	return has, nil
+}
